@@ -22,6 +22,8 @@ def specs_for(tier, seed):
     if tier == "thorough":
         s += [
             dict(pres="components", nreq=2, ce=3, label="real graph, components, 2 requests exhaustive, ce=3"),
+            dict(pres="minimal", nreq=3, ce=2, requests="GUARDS", label="3 requests exhaustive over the keys that guards test and their direct consumers, ce=2"),
+            dict(pres="minimal", nreq=3, ce=1000, requests="GUARDS", label="3 requests exhaustive over guard keys and consumers, nothing evicted"),
             dict(pres="tensors", nreq=2, ce=1, mt=True, label="real graph, tensors, 2 requests exhaustive, mem tiny"),
             dict(pres="minimal", nreq=2, ce=7, label="real graph, minimal, 2 requests exhaustive, ce=7"),
             dict(pres="tensors", nreq=12, ce=7, simulate=40, seed=seed + 4, emit=False, label="simulate 12 requests ce=7"),
@@ -49,6 +51,10 @@ def run(tier, seed):
             x["requests"] = shift_keys
         if x.get("requests") == "MATTER":
             x["requests"] = matter_keys
+        if x.get("requests") == "GUARDS":
+            tested = {n["key"] for ns in graph["prog"].values() for n in ns if n["op"] == "t"}
+            consumers = {k for k, ns in graph["prog"].items() if any(n["op"] == "t" for n in ns)}
+            x["requests"] = sorted((tested | consumers) & set(graph["keys"] + graph["helpers"]))
     specs = CC.run_models(run, graph, sp, plan, opts)
     run.info["tlc_models"] = [{k: v for k, v in sp.items() if k != "requests"} for sp in specs]
     CC.execute(run, "C01", graph, plan, opts, seed, max_traces=250 if tier == "quick" else 3000)
